@@ -27,7 +27,11 @@ fn main() {
         Some("check") => {
             let id = args.get(2).cloned().unwrap_or_else(|| usage());
             let env = Env::from_env(args.get(3).map(|s| s.as_str()));
-            let code = checks::run(&id, &env, &known);
+            // a panic of the harness itself is infrastructure trouble, never a verdict
+            let code = std::panic::catch_unwind(std::panic::AssertUnwindSafe(|| checks::run(&id, &env, &known))).unwrap_or_else(|_| {
+                eprintln!("[qv] the harness itself panicked: inconclusive");
+                2
+            });
             std::process::exit(code)
         }
         Some("replay") => {
